@@ -725,6 +725,9 @@ func cmdRenderIsolated(args []string) {
 			defer func() { recover() }()
 			src = printNodes(v.Prog)
 		}()
+		if src == "" {
+			src = firstLine(string(raw))
+		}
 		if hung {
 			rep.viol(fmt.Sprintf("render[%s]: template %q: did not finish within 30s", v.M, src), map[string]interface{}{"vector": raw, "cmd": "render-isolated"})
 			return
